@@ -113,14 +113,44 @@ class H1(Scenario):
     mode = "regular"
     msgs = [("c2s", "request"), ("s2c", "response"), ("c2s", "request"), ("s2c", "response")]
 
-    def __init__(self, pipelined=False, stream=False):
+    def __init__(self, pipelined=False, stream=False, post=False, h2up=False):
         super().__init__()
         self.pipelined = pipelined
         self.stream = stream  # the addon streams response bodies; the origin then answers chunked
+        self.post = post  # the requests carry a body
+        self.h2up = h2up  # the origin speaks HTTP/2 (the harness' server_connect policy stands in for TLS ALPN)
+        self.origin = H2Origin() if h2up else None
         self.answered = {}
 
     def req(self, i):
+        if self.post:
+            return b"POST http://example.com/" + mk(i) + b" HTTP/1.1\r\nHost: example.com\r\nContent-Length: 8\r\n\r\npayload" + b"%d" % i
         return b"GET http://example.com/" + mk(i) + b" HTTP/1.1\r\nHost: example.com\r\n\r\n"
+
+    def forwarded(self, w, i):
+        """the message as the destination's independent decoder sees it: {"head": path or status, "body", "complete"}"""
+        if i in (0, 2):
+            if self.h2up:
+                self.origin.pump(w)
+                for e, sid, r in self.origin.requests():
+                    if mk(i) in r["path"] or ed(i) in r["path"]:
+                        return {"head": r["path"], "body": r["body"], "complete": r["ended"]}
+                return None
+            for e in w.servers:
+                got, _ = http1ref.parse_requests(e.w.data)
+                for m in got:
+                    if mk(i) in m["start"][1] or ed(i) in m["start"][1]:
+                        return {"head": m["start"][1], "body": m["body"], "complete": True}
+            return None
+        methods = [b"POST" if self.post else b"GET"] * 2
+        got, _ = http1ref.parse_responses(w.client.w.data, methods, eof=w.client.w.closed)
+        k = 0 if i == 1 else 1
+        if k < len(got):
+            return {"head": got[k]["start"][1], "body": got[k]["body"], "complete": True}
+        return None
+
+    def toggle_body(self, i, data):
+        toggle_body(i, data)
 
     def resp(self, i):
         return http_response(i, self.stream)
@@ -141,6 +171,12 @@ class H1(Scenario):
 
     def target(self, w, i):
         """the upstream connection whose next unanswered request is the one response i answers (possibly edited)"""
+        if self.h2up:
+            self.origin.pump(w)
+            for e, sid, r in self.origin.requests():
+                if r["ended"] and not r["answered"] and not e.r.eof and not e.w.closed and (mk(i - 1) in r["path"] or ed(i - 1) in r["path"]):
+                    return e, sid
+            return None
         for e in w.servers:
             if e.state != "open" or e.r.eof or e.w.closed:
                 continue
@@ -160,6 +196,9 @@ class H1(Scenario):
         src, key = step
         if src == "c":
             return [(w.client, b"".join(self.req(i) for i in key))]
+        if self.h2up:
+            e, sid = self.target(w, key)
+            return [(e, self.origin.respond(e, sid, mk(key)))]
         e = self.target(w, key)
         self.answered[id(e)] = self.answered.get(id(e), 0) + 1
         return [(e, self.resp(key))]
@@ -189,8 +228,76 @@ class H1(Scenario):
 
     def dest(self, w, direction):
         if direction == "c2s":
+            if self.h2up:
+                self.origin.pump(w)
+                return b"|".join(r["path"] + b" " + r["body"] for e, sid, r in self.origin.requests())
             return b"".join(e.w.data for e in w.servers)
         return w.client.w.data
+
+
+class H2Origin:
+    """independent HTTP/2 origin server(s) (hyper-h2, server side): reads what mitmproxy wrote to each upstream socket"""
+
+    def __init__(self):
+        self.conns = {}  # id(End) -> state
+        self.order = []
+
+    def pump(self, w):
+        for e in w.servers:
+            if e.state != "open":
+                continue
+            st = self.conns.get(id(e))
+            if st is None:
+                c = h2.connection.H2Connection(h2.config.H2Configuration(client_side=False, header_encoding="utf-8"))
+                c.initiate_connection()
+                st = self.conns[id(e)] = {"end": e, "conn": c, "fed": 0, "streams": {}, "error": None}
+                self.order.append(id(e))
+            d = e.w.data
+            if len(d) > st["fed"] and st["error"] is None:
+                try:
+                    evs = st["conn"].receive_data(d[st["fed"]:])
+                except Exception as ex:  # a protocol error of mitmproxy's HTTP/2 client: nothing more is decoded
+                    st["error"] = repr(ex)
+                    evs = []
+                st["fed"] = len(d)
+                for ev in evs:
+                    if isinstance(ev, h2.events.RequestReceived):
+                        hd = dict(ev.headers)
+                        st["streams"][ev.stream_id] = {"path": hd.get(":path", "").encode(), "method": hd.get(":method", ""), "body": b"", "ended": False, "reset": False, "answered": False}
+                    elif isinstance(ev, h2.events.DataReceived):
+                        st["streams"][ev.stream_id]["body"] += ev.data
+                        st["conn"].acknowledge_received_data(ev.flow_controlled_length, ev.stream_id)
+                    elif isinstance(ev, h2.events.StreamEnded):
+                        st["streams"][ev.stream_id]["ended"] = True
+                    elif isinstance(ev, h2.events.StreamReset):
+                        if ev.stream_id in st["streams"]:
+                            st["streams"][ev.stream_id]["reset"] = True
+
+    def requests(self):
+        out = []
+        for k in self.order:
+            st = self.conns[k]
+            for sid in sorted(st["streams"]):
+                out.append((st["end"], sid, st["streams"][sid]))
+        return out
+
+    def respond(self, e, sid, body):
+        st = self.conns[id(e)]
+        st["streams"][sid]["answered"] = True
+        st["conn"].send_headers(sid, [(":status", "200"), ("content-length", str(len(body)))])
+        st["conn"].send_data(sid, body, end_stream=True)
+        return st["conn"].data_to_send()
+
+
+def toggle_body(i, data):
+    """the user's edit gives a bodiless message a body / removes the body of a message that had one (and marks the
+    message as edited: path for requests, a header for responses)"""
+    if i in (0, 2):
+        data.request.path = "/" + ed(i).decode()
+        data.request.content = b"" if data.request.raw_content else b"added-by-user-%d" % i
+    else:
+        data.response.headers["x-edited"] = ed(i).decode()
+        data.response.content = b"" if data.response.raw_content else b"added-by-user-%d" % i
 
 
 def http_response(i, chunked):
@@ -471,6 +578,21 @@ class H2(Scenario):
     which = H1.which
     edit = H1.edit
     replace = H1.replace
+    toggle_body = H1.toggle_body
+
+    def forwarded(self, w, i):
+        if i in (0, 2):
+            for e in w.servers:
+                got, _ = http1ref.parse_requests(e.w.data)
+                for m in got:
+                    if mk(i) in m["start"][1] or ed(i) in m["start"][1]:
+                        return {"head": m["start"][1], "body": m["body"], "complete": True}
+            return None
+        self.pump(w)
+        sid = self.sid(i)
+        if sid not in self.bodies and sid not in self.ended:
+            return None
+        return {"head": None, "body": self.bodies.get(sid, b""), "complete": sid in self.ended and sid not in self.resets}
 
     def token(self, w, i):
         """streams are independent: what the client has of *this* stream (body bytes, END_STREAM seen) must not change
@@ -503,7 +625,12 @@ SCENARIOS = {
     # the addon streams response bodies (flow.response.stream = True in responseheaders); chunked origin responses
     "h1-stream": lambda: H1(False, stream=True),
     "h2-stream": lambda: H2(stream=True),
+    # requests with a body; an HTTP/2 origin (end-of-stream flags instead of Content-Length framing)
+    "h1-post": lambda: H1(post=True),
+    "h1-h2up": lambda: H1(h2up=True),
+    "h1-post-h2up": lambda: H1(post=True, h2up=True),
 }
+BODY_EDIT = ("h1", "h2", "h1-post", "h1-h2up", "h1-post-h2up")  # scenarios in which the edit may add / remove a body
 HTTP_LIKE = ("http1", "http2")
 
 
@@ -525,9 +652,20 @@ class Exec:
         def token(i):
             return sc.token(w, i) if hasattr(sc, "token") else None
 
+        expect = {}  # msg index -> the message as the user left it when resuming (what must be forwarded, in full)
+
+        def snapshot(i, f):
+            if not hasattr(sc, "forwarded"):
+                return None
+            if i in (0, 2):
+                return {"head": f.request.data.path, "body": f.request.raw_content or b""}
+            return {"head": b"%d" % f.response.status_code, "body": f.response.raw_content or b""}
+
         def policy(name, data, world):
             if streaming and name == "responseheaders" and isinstance(data, http.HTTPFlow):
                 data.response.stream = True
+            if getattr(sc, "h2up", False) and name == "server_connect":
+                data.server.alpn = b"h2"  # what the TLS handshake with an HTTP/2 origin leaves on the connection
             i = sc.which(name, data)
             if i is None:
                 return
@@ -560,7 +698,7 @@ class Exec:
         trace = []
         feats0 = {"proto": sc.proto}
         case = {"scen": self.scen, "pol": "".join(self.pol), "eager": self.eager, "edit": self.edit, "choices": None}
-        results = {"ends_flow": [], "kill_tokens": kill_tokens}
+        results = {"ends_flow": [], "kill_tokens": kill_tokens, "expect": expect}
 
         def body_already_sent(i):
             # a streamed response body has been forwarded before the response hook runs: only completing the
@@ -617,13 +755,18 @@ class Exec:
                     f = h[1]
                     if a[0] == "resume":
                         h[2] = "resumed"
+                        if not body_already_sent(h[0]):
+                            expect[h[0]] = snapshot(h[0], f)
                         w.act(f.resume)
                     elif a[0] == "edit":
                         h[2] = "edited"
                         if self.edit == "replace":
                             sc.replace(h[0], f)
+                        elif self.edit == "body":
+                            sc.toggle_body(h[0], f)
                         else:
                             sc.edit(h[0], f)
+                        expect[h[0]] = snapshot(h[0], f)
                         w.act(f.resume)
                     else:
                         h[2] = "killed"
@@ -700,6 +843,16 @@ class Exec:
             if what == "resumed":
                 if not any_kill:
                     t.judge("resume_forwards_once", n_orig == 1 and n_edit == 0, dict(f, edited=False, count=min(n_orig, 2)), case, "exactly one copy of the resumed message", {"orig": n_orig, "edited": n_edit})
+            want = results["expect"].get(i)
+            if what in ("resumed", "edited") and want is not None and not any_kill:
+                # the whole message as the user left it (start line target / status and the complete body) is what arrives
+                fw = sc.forwarded(w, i)
+                same = fw is not None and fw["complete"] and fw["body"] == want["body"] and (fw["head"] is None or fw["head"] == want["head"])
+                t.judge("resume_forwards_edited_only" if what == "edited" else "resume_forwards_once", same,
+                        dict(f, edited=what == "edited", by="full_message", edit=self.edit if what == "edited" else "none"), case,
+                        "the destination decodes exactly the message on the flow at resume time", {"forwarded": fw, "on_flow": want})
+            if what == "edited" and self.edit == "body" and d == "s2c":
+                pass  # the edited response carries its marker in a header only; judged by the full-message comparison above
             elif what == "edited":
                 t.judge("resume_forwards_edited_only", n_orig == 0, dict(f, edited=True), case, "nothing of the unedited message", {"orig": n_orig, "edited": n_edit})
                 if not any_kill:
@@ -765,10 +918,15 @@ def specs(tier):
                 # streaming only changes what happens around the response hooks
                 if (pol[1] == "-" and pol[3] == "-") or (quick and touched > 2):
                     continue
+            if scen in ("h1-post", "h1-h2up", "h1-post-h2up") and quick and touched > 2:
+                continue
             out.append((scen, pol, True, "inplace"))
             # the user's edit replaces the whole request / response object instead of changing it in place
             if scen in ("h1", "h2") and "i" in pol and not (quick and touched > 2):
                 out.append((scen, pol, True, "replace"))
+            # the user's edit adds a body to a bodiless message / removes the body of a message that had one
+            if scen in BODY_EDIT and "i" in pol and not (quick and touched > 2):
+                out.append((scen, pol, True, "body"))
     return out
 
 
